@@ -2,6 +2,7 @@ package chainsim
 
 import (
 	"fmt"
+	"os"
 	"sort"
 	"strings"
 
@@ -43,6 +44,16 @@ func c01RunReplica(r *simrt.Run, policy int, seed uint64, main bool) (tr *c01Tra
 	// whose own oracles are ignored here
 	nThemes := len(themes) + 3
 	ti := r.Draw("cfg", nThemes)
+	if want := os.Getenv("VERIF_C01_THEME"); want != "" { // development aid: force one theme
+		for i, t := range themes {
+			if t.name == want {
+				ti = i
+			}
+		}
+		if want == "rich" {
+			ti = len(themes)
+		}
+	}
 	worldInitHooks = append(worldInitHooks, func(w *World) {
 		add := func(label string) {
 			tr.points = append(tr.points, c01Point{label, w.Digest()})
